@@ -245,14 +245,14 @@ func genAttrs(g *hx.Gen) string {
 			return g.Pick([]string{"alice", "host1.example.com", "8.1", "bob", "a@b", "a b", "x=y", "é", "u "})
 		}
 	}
-	ifver := []int{0, 5, 6, 7, 8, -1, 100}[g.Intn(7)]
+	ifver := []int{0, 5, 6, 7, 8, -1, 100, 6, 7, 1<<32 + 6, 1<<32 + 7, 263, 65543, -249}[g.Intn(14)]
 	ver := str()
 	if g.Intn(3) > 0 {
 		ver = g.Pick(versions)
 	}
 	ts := "nil"
 	if g.Intn(3) > 0 {
-		ts = strings.Join([]string{hx.B01(g.Bool()), hx.HexS(g.Pick([]string{"", "h1", "h1,h2", "h 1", "a=b", "é"})), strconv.Itoa([]int{0, 0, 30, -5, 1 << 40}[g.Intn(5)])}, ",")
+		ts = strings.Join([]string{hx.B01(g.Bool()), hx.HexS(g.Pick([]string{"", "h1", "h1,h2", "h 1", "a=b", "é"})), strconv.Itoa([]int{0, 0, 30, -5, 1 << 40, 1 << 31, 1<<31 - 1, -1 << 31, -1<<31 - 1, 1 << 32, 1<<63 - 1, -1 << 63, 1<<32 + 30}[g.Intn(13)])}, ",")
 	}
 	user, host := str(), str()
 	if g.Intn(3) > 0 && user == "" {
@@ -265,7 +265,7 @@ func genAttrs(g *hx.Gen) string {
 		ver = "8.1"
 	}
 	return "at(" + strings.Join([]string{strconv.Itoa(ifver), hx.HexS(user), hx.HexS(host), hx.HexS(ver),
-		strconv.Itoa([]int{0, 0, 1, 3, 4, 99}[g.Intn(6)]), strconv.Itoa([]int{0, 0, 4, 16}[g.Intn(4)]), hx.B01(g.Bool()), hx.B01(g.Bool()), ts, genExts(g, 0)}, "/") + ")"
+		strconv.Itoa([]int{0, 0, 1, 3, 4, 99, 257, 1<<32 + 3, -1}[g.Intn(9)]), strconv.Itoa([]int{0, 0, 4, 16, 260, 1<<32 + 4, -1}[g.Intn(7)]), hx.B01(g.Bool()), hx.B01(g.Bool()), ts, genExts(g, 0)}, "/") + ")"
 }
 
 var legacyTexts = []string{
